@@ -91,7 +91,26 @@ def check(chk):
         'if dc != self.local_dc' in s and s.index('local_live') < s.index('other_dcs')
     chk.judge(good, 'C21.slice', plan, 'DC-aware plan: one cycle over local hosts first, then the bounded slice of each other DC', 'DC-aware plan order/coverage changed')
     sd = src(dist)
-    chk.judge('if dc == self.local_dc' in sd and 'HostDistance.LOCAL' in sd and 'if not self.used_hosts_per_remote_dc' in sd, 'C21.slice', dist, 'distance: LOCAL for the local DC, IGNORED when no remote hosts are used', 'distance table changed')
+    gd = CFG(dist)
+    fld = Flow(gd, 0, lambda n, c: c)
+    okd = True
+    seen_d = set()
+    for r in [n for n in gd.nodes if n.kind == 'return']:
+        v = src(r.ast.value)
+        seen_d.add(v)
+        for fa, _ in fld.at(r):
+            if v == 'HostDistance.LOCAL':
+                okd = okd and fa.knows('dc == self.local_dc') is True
+            elif v == 'HostDistance.REMOTE':
+                okd = okd and fa.knows('dc == self.local_dc') is False and fa.knows('self.used_hosts_per_remote_dc') is True and fa.knows('dc_hosts') is True \
+                    and fa.knows('host in list(dc_hosts)[:self.used_hosts_per_remote_dc]') is True
+            elif v == 'HostDistance.IGNORED':
+                okd = okd and fa.knows('dc == self.local_dc') is False and (fa.knows('self.used_hosts_per_remote_dc') is False or fa.knows('dc_hosts') is False
+                                                                        or fa.knows('host in list(dc_hosts)[:self.used_hosts_per_remote_dc]') is False)
+            else:
+                okd = False
+    chk.judge(okd and seen_d == set(['HostDistance.LOCAL', 'HostDistance.REMOTE', 'HostDistance.IGNORED']), 'C21.slice', dist,
+              'distance: LOCAL for the local DC; REMOTE for a host inside the bounded slice of its DC; IGNORED otherwise (branch facts at every return)', 'distance table changed')
     pop = pol.func('DCAwareRoundRobinPolicy.populate')
     gb = [n for n in body_walk(pop) if isinstance(n, ast.Call) and src(n.func).endswith('groupby')]
     bad_gb = [g for g in gb if not (g.args and isinstance(g.args[0], ast.Call) and src(g.args[0].func) == 'sorted')]
